@@ -26,7 +26,7 @@ EFF_NAMES = {
     23: "m(x) -= d",
 }
 INV_NAMES = {0: "always n <= c3", 1: "always b or p(o1)", 2: "always forall y. b or not p(y)",
-             3: "always p(o1) or not p(o2)", 4: "always b or not p(o2)"}
+             3: "always p(o1) or not p(o2)", 4: "always b or not p(o2)", 5: "always not p(w(o1)) (a fluent nested in the invariant)"}
 TRAJ_NAMES = {0: "sometime b", 1: "at-most-once p(o1)", 2: "sometime-before b p(o1)", 3: "sometime-after p(o1) b",
               4: "always (b or not p(o2))", 5: "sometime p(o2)", 6: "at-most-once b"}
 
@@ -103,7 +103,7 @@ def _build(ctx, sk, env=None):
     if need_st:
         g.st = Fluent(nm("st"), tm.BoolType(), environment=env, **{nm("x"): T})
         prob.add_fluent(g.st, default_initial_value=True)
-    need_w = (not minimal) or bool(_c & {10, 11}) or bool(_e & {7, 14, 21})
+    need_w = (not minimal) or bool(_c & {10, 11}) or bool(_e & {7, 14, 21}) or 5 in sk.get("inv", [])
     need_m = bool(_c & {17}) or bool(_e & {22, 23})
     need_n = (not minimal and not need_m) or bool(_c & {4, 5, 9, 13, 14, 18}) or bool(_e & {2, 3, 4, 5, 8, 9, 16, 17}) or 0 in sk.get("inv", [])
     g.has = dict(u=need_u, w=need_w, n=need_n, m=need_m)
@@ -256,6 +256,8 @@ def _build(ctx, sk, env=None):
             prob.add_state_invariant(em.Or(em.FluentExp(p, [em.ObjectExp(o1)]), em.Not(em.FluentExp(p, [em.ObjectExp(o2)]))))
         elif i == 4:
             prob.add_state_invariant(em.Or(em.FluentExp(b), em.Not(em.FluentExp(p, [em.ObjectExp(o2)]))))
+        elif i == 5:
+            prob.add_state_invariant(em.Not(em.FluentExp(p, [em.FluentExp(w, [em.ObjectExp(o1)])])))
     for i in sk.get("goal", [0]):
         prob.add_goal(cond(i, em.ObjectExp(o1)))
     for i in sk.get("traj", []):
@@ -273,7 +275,7 @@ def _build(ctx, sk, env=None):
     if (set(sk.get("second_action") or [])) & {1, 5, 9, 14, 16}:
         conds |= {sk.get("effcond2", 0)}
     uses_b = bool(conds & {0, 1, 6, 8}) or bool(effs & {0, 1, 12, 20}) or bool({1, 2, 3, 4} & set(sk.get("inv", []))) or sk.get("fork_all")
-    uses_p = bool(conds & {2, 6, 7, 8, 11, 12}) or bool(effs & {6, 10, 13, 15, 20, 21}) or bool({1, 2, 3, 4} & set(sk.get("inv", []))) or sk.get("fork_all")
+    uses_p = bool(conds & {2, 6, 7, 8, 11, 12}) or bool(effs & {6, 10, 13, 15, 20, 21}) or bool({1, 2, 3, 4, 5} & set(sk.get("inv", []))) or sk.get("fork_all")
     prob.set_initial_value(em.FluentExp(b), em.Bool(bool(ctx.choice("b0", 2)) if uses_b else False))
     for o in objs:
         prob.set_initial_value(em.FluentExp(p, [em.ObjectExp(o)]), em.Bool(bool(ctx.choice(f"p0_{o.name}", 2)) if uses_p else False))
